@@ -56,6 +56,7 @@ func report(o *checkOpts, prog *Program, results []*UnitResult, genFails map[str
 	var slowest []slow
 	var samples []map[string]any
 	covers, coversOK := 0, 0
+	aggregates := 0
 	knownHit := map[string]bool{}
 	for _, ob := range all {
 		solverTime += ob.TimeS
@@ -77,6 +78,16 @@ func report(o *checkOpts, prog *Program, results []*UnitResult, genFails map[str
 				discharged++
 			} else {
 				knownLines = append(knownLines, fmt.Sprintf("KNOWN-FINDING: property=%s %s: %s", kf.Property, ob.Name, kf.What))
+			}
+			continue
+		}
+		if ob.Kind == "guardall" {
+			// aggregate over the per-site guard obligations (no solver query of its own): not counted as an obligation
+			aggregates++
+			if ob.Status != "unsat" {
+				if inLedger[ob.Name] || o.updateLedger {
+					viols = append(viols, violation{Obligation: ob.Name, Reason: "locking discipline no longer respected: " + ob.Src, Status: ob.Status})
+				}
 			}
 			continue
 		}
@@ -211,8 +222,8 @@ func report(o *checkOpts, prog *Program, results []*UnitResult, genFails map[str
 	if prop != "" {
 		writeEvidence(o, prog, results, all, total, discharged, byBackend, solverTime, slowest, samples, undecided, knownLines, viols, covers, coversOK, start)
 	}
-	fmt.Printf("govc: property=%s tier=%s units=%d obligations=%d discharged=%d undecided=%d known=%d violations=%d wall=%.1fs\n",
-		propOr(prop), o.tier, len(results), total, discharged, len(undecided), len(knownLines), len(viols), time.Since(start).Seconds())
+	fmt.Printf("govc: property=%s tier=%s units=%d obligations=%d discharged=%d undecided=%d known=%d violations=%d aggregates=%d wall=%.1fs\n",
+		propOr(prop), o.tier, len(results), total, discharged, len(undecided), len(knownLines), len(viols), aggregates, time.Since(start).Seconds())
 	return exit
 }
 
